@@ -101,6 +101,9 @@ pub struct SeederCfg {
     /// answer the first two (full) blocks of a piece with the right bytes under each other's
     /// offsets: in arrival order the payloads still concatenate to the true piece
     pub mislabel: bool,
+    /// per mille: after serving the block that completes a piece, ask the client for a block of
+    /// that very piece (without having been unchoked by it, without even declaring interest)
+    pub request_back: u64,
 }
 
 impl SeederCfg {
@@ -118,6 +121,7 @@ impl SeederCfg {
             disc: None,
             idle_close_ms: 30_000,
             mislabel: false,
+            request_back: 0,
             leech: false,
             serve_while_choking: false,
             late_haves: vec![],
@@ -306,6 +310,14 @@ async fn seeder_task(cfg: SeederCfg, mut io: PeerIo) {
                         } else { b };
                         if !io.send(&Msg::Piece(i, label, data)).await { return; }
                         set.insert(b);
+                        if set.len() >= nblocks && io.rng.below(1000) < cfg.request_back {
+                            let l0 = p.len().min(16384) as u32;
+                            io.log.note(&io.addr, format!("asking back for piece {} right after delivering it", i));
+                            // give the client the time to verify and store it first
+                            let until = io.log.now_ms() + 50;
+                            while io.log.now_ms() < until { match io.recv_within(until - io.log.now_ms()).await { Ok(None) => return, Ok(Some(Msg::Request(ri, rb, rl))) => { let d = io.rng.range(cfg.latency_ms.0, cfg.latency_ms.1); queue.push_back((io.log.now_ms() + d, Act::Serve(ri, rb, rl))); } _ => () } }
+                            if !io.send(&Msg::Request(i, 0, l0)).await { return; }
+                        }
                     }
                     served += 1;
                     if let Some(Disc::AfterBlocks(n)) = cfg.disc { if served >= n { io.close(); return; } }
